@@ -131,7 +131,7 @@ int main(int argc, char **argv) {
                      *gx::bnd({0, 1, 0xFFFF}, 0, 0xFFFF, 1, 1), *gx::bnd({0, 1, 0xFFFF}, 0, 0xFFFF, 1, 1)};
             return c;
         });
-        ok = run_cases(a, ev, "c11-random", a.n(60000, 500000), 100, gen, run);
+        ok = run_cases(a, ev, "c11-random", a.n(200000, 2000000), 100, gen, run);
     }
     ev.write(a.out);
     return ok ? 0 : 1;
